@@ -89,6 +89,14 @@ func checkC03(a *checkArgs, r *Result) error {
 		}
 		items = append(items, item{fmt.Sprintf("spec-gen/%d %s", i, desc), s, c, strings.Contains(desc, "+")})
 	}
+	bitems, err := boundaryStreams(rng, dp)
+	if err != nil {
+		return err
+	}
+	for _, b := range bitems {
+		items = append(items, item{b.name, b.stream, b.content, true})
+	}
+	r.Add("boundary_streams", len(bitems))
 	xzBin, _ := exec.LookPath("xz")
 	var wg sync.WaitGroup
 	sem := make(chan struct{}, 16)
@@ -147,3 +155,99 @@ func checkC03(a *checkArgs, r *Result) error {
 }
 
 func init() { checks["C03"] = checkC03 }
+
+// boundaryStreams builds streams whose chunks sit exactly on the format's field limits: a
+// compressed chunk of exactly 65536 compressed bytes (size field 0xffff), a chunk of exactly 2 MiB
+// of uncompressed data (size field 0x1fffff), a raw chunk of exactly 65536 bytes.
+func boundaryStreams(rng *rand.Rand, dp *DriverPool) (items []struct {
+	name            string
+	stream, content []byte
+}, err error) {
+	add := func(name string, specs []string, content []byte) error {
+		rep, err := dp.Ask("xzbuild 4 0 B 0 1 1 20 " + strings.Join(specs, " ") + " eos/-/-")
+		if err != nil {
+			return err
+		}
+		if rep == "bad-op" {
+			return fmt.Errorf("xzbuild rejected a boundary stream")
+		}
+		items = append(items, struct {
+			name            string
+			stream, content []byte
+		}{name, unhxe(rep), content})
+		return nil
+	}
+	// (1) compressed size exactly 65536: K incompressible literals, K adjusted until the size field is 0xffff
+	lits := make([]byte, 70000)
+	rng.Read(lits)
+	// size(k) = compressed size of the chunk holding the first k literals; monotone in k
+	size := func(k int) (int, string, error) {
+		ops := make([]string, k)
+		for i := 0; i < k; i++ {
+			ops[i] = fmt.Sprintf("L%d", lits[i])
+		}
+		spec := "lrnd/93/" + strings.Join(ops, ".")
+		rep, err := dp.Ask("lzma2build 4096 " + spec)
+		if err != nil {
+			return 0, "", err
+		}
+		s := unhxe(rep)
+		if len(s) < 7 {
+			return 0, "", fmt.Errorf("lzma2build failed")
+		}
+		return len(s) - 6, spec, nil // header of an lrnd chunk: 6 bytes
+	}
+	for attempt := 0; attempt < 6; attempt++ {
+		lo, hi := 60000, 69000 // size(lo) < 65536 <= size(hi)
+		for lo+1 < hi {
+			mid := (lo + hi) / 2
+			sz, _, err := size(mid)
+			if err != nil {
+				return nil, err
+			}
+			if sz >= 65536 {
+				hi = mid
+			} else {
+				lo = mid
+			}
+		}
+		sz, spec, err := size(hi)
+		if err != nil {
+			return nil, err
+		}
+		if sz == 65536 {
+			if err := add("boundary/compressed-size-65536", []string{spec}, append([]byte{}, lits[:hi]...)); err != nil {
+				return nil, err
+			}
+			break
+		}
+		// the size jumped over 65536: change the literals near the end and search again
+		for j := 1; j <= 40; j++ {
+			lits[hi-j] = byte(rng.Intn(256))
+		}
+	}
+	// (2) uncompressed size exactly 2 MiB in one chunk
+	ops := []string{"L7"}
+	n := 1
+	for n+273 <= 1<<21 {
+		ops = append(ops, "M273,0")
+		n += 273
+	}
+	if rest := 1<<21 - n; rest >= 2 {
+		ops = append(ops, fmt.Sprintf("M%d,0", rest))
+		n += rest
+	} else if rest == 1 {
+		ops = append(ops, "S")
+		n++
+	}
+	if err := add("boundary/uncompressed-size-2MiB", []string{"lrnd/93/" + strings.Join(ops, ".")}, bytes.Repeat([]byte{7}, n)); err != nil {
+		return nil, err
+	}
+	// (3) raw chunk of exactly 65536 bytes followed by a compressed chunk
+	raw := make([]byte, 65536)
+	rng.Read(raw)
+	if err := add("boundary/raw-65536", []string{"ud/-/" + hx(raw), "lrn/93/M200,65535.L1"}, append(append(append([]byte{}, raw...), raw[:200]...), 1)); err != nil {
+		return nil, err
+	}
+	return items, nil
+}
